@@ -27,6 +27,13 @@ def make_graphs(cfg):
     if st == "mixed":
         ds = Dataset()
         return Graph(), ds.graph(BNode("gB"))
+    if st == "mixed_hidden":
+        # as "mixed", and the dataset of B holds a further graph H that starts out with B's triples: an operation on B with an operand
+        # from another store must not reach into H
+        ds = Dataset()
+        b = ds.graph(URIRef("urn:g:B"))
+        b._hidden = ds.graph(URIRef("urn:g:H"))
+        return Graph(), b
     if st == "same_id":
         # two graphs in separate stores that carry the same identifier (two versions of one named graph)
         return Graph(identifier=URIRef("urn:g:same")), Graph(identifier=URIRef("urn:g:same"))
@@ -60,6 +67,8 @@ def replay(cfg, events):
                     A.add(trip(t))
                 for t in e["B0"]:
                     B.add(trip(t))
+                    if getattr(B, "_hidden", None) is not None:
+                        B._hidden.add(trip(t))
                 e["res"] = {"k": "ok"}
             elif op == "add":
                 G[e["g"]].add(trip(e["t"]))
@@ -143,6 +152,8 @@ def replay(cfg, events):
         except Exception as ex:     # noqa: BLE001
             e["res"] = {"k": "raise", "e": type(ex).__name__, "msg": str(ex)[:80]}
         e["A"], e["B"] = content(A), content(B)
+        if getattr(B, "_hidden", None) is not None:
+            e["H"] = content(B._hidden)
         e["lenA"], e["lenB"] = len(A), len(B)
         evs.append(e)
     return {"cfg": cfg, "ev": evs}
